@@ -381,6 +381,8 @@ def known_findings():
     VERIF_EXTRA_FINDINGS=<file>[:<file>] adds proposal files (docs/findings_cNN.json)."""
     res = []
     paths = [os.path.join(ROOT, "known_findings.json")] + [x for x in os.environ.get("VERIF_EXTRA_FINDINGS", "").split(":") if x]
+    # the extra checks X01.. (specs beyond the listed properties, DESIGN section 10) keep their findings next to their docs
+    paths += sorted(glob.glob(os.path.join(ROOT, "docs", "findings_x[0-9]*.json")))
     for p in paths:
         if os.path.exists(p):
             res += json.load(open(p)).get("findings", [])
